@@ -17,6 +17,9 @@ import (
 	"kvassverif/internal/core"
 	_ "kvassverif/internal/e1"
 	_ "kvassverif/internal/e3"
+	_ "kvassverif/internal/e4"
+
+	_ "github.com/prometheus/prometheus/discovery/install"
 )
 
 func main() {
